@@ -63,8 +63,13 @@ ReqRecvRet ==
           ELSE Flag("C07/req-recv-payload") /\ UNCHANGED <<avars, mvars>>
   ELSE IF E.res = "err" THEN
      IF ~owed THEN UNCHANGED <<avars, mvars>> /\ NoFlag                         \* refused in turn, state unchanged
-     ELSE IF rconn \in DOMAIN cut \/ (Pend(rconn) # <<>> /\ ~WellFormed("REQ", Head(Pend(rconn))))
-          THEN UNCHANGED <<avars, mvars, viol>> /\ dead' = TRUE                  \* behaviour after a fault / malformed reply is not demanded
+     ELSE IF rconn \in DOMAIN cut
+          \* the request died with its peer.  Whether the socket now wants a send or still a recv is not demanded (a refused
+          \* call after a fault is never flagged), but everything else is: the next requests must go out, with their envelope,
+          \* to peers that are alive, and their replies must come back
+          THEN owed' = FALSE /\ lastdrop' = FALSE /\ UNCHANGED <<avars, rconn, rreq>> /\ NoFlag
+     ELSE IF Pend(rconn) # <<>> /\ ~WellFormed("REQ", Head(Pend(rconn)))
+          THEN UNCHANGED <<avars, mvars, viol>> /\ dead' = TRUE                  \* behaviour after a malformed reply is not demanded
      ELSE Flag("C08/in-turn-refused") /\ UNCHANGED <<avars, mvars>>
   ELSE Flag("C03/panic") /\ UNCHANGED <<avars, mvars>>
 
